@@ -343,7 +343,7 @@ func (e *Exec) evalExpr(x ast.Expr, env *SpecEnv) (v Val, err error) {
 		if id.Name == "forallInt" || id.Name == "existsInt" || id.Name == "forallKey" {
 			return e.evalQuant(id.Name, x, env)
 		}
-		if id.Name == "same" {
+		if id.Name == "same" || id.Name == "samePE" {
 			a, err := tm(x.Args[0])
 			if err != nil {
 				return Val{}, err
@@ -576,7 +576,7 @@ func (fr *Frame) specBuiltin(st *State, pc Term, name string, args []Val, pos to
 			return termVal(T(SBool, "(forall ((%s String)) %s)", q.S, body.T.S)), true
 		}
 		return termVal(T(SBool, "(exists ((%s String)) %s)", q.S, body.T.S)), true
-	case "same":
+	case "same", "samePE":
 		a := e.toTerm(st, args[0])
 		b := e.toTerm(st, args[1])
 		return termVal(Eq(a, b)), true
